@@ -76,3 +76,14 @@ def times(shape, kind, model=None, obligation=None, **_):
   if failed:
     return True, head + " | failed clauses: " + "; ".join(f"{n} {note}".strip() for n, note in failed)
   return False, head + " | every clause holds" + (f" (the obligation was {want})" if want else "")
+
+
+def alignment(scc, config=None, **_):
+  """metamorphic contract `text_align changes alignment only`: the paragraphs with and without the configuration, natively"""
+  logging.disable(logging.CRITICAL)
+  import rtc.c08 as C
+  f = C.evaluate_alignment(scc, config)
+  out = ["SCC:", scc.strip(), "", f"paragraphs without a configuration: {C.raw_paragraphs(scc, None)!r}", f"paragraphs with text_align={config}: {C.raw_paragraphs(scc, config)!r}"]
+  if f is None:
+    return False, "\n".join(out) + "\nidentical"
+  return True, "\n".join(out) + "\n" + f[2]
